@@ -11,6 +11,7 @@ mod c07;
 mod langs;
 mod c08;
 mod c09;
+mod derived;
 mod c10;
 mod c11;
 mod c12;
@@ -112,6 +113,7 @@ fn main() {
                 "c09" => c09::replay(case),
                 "c10" => c10::replay(case),
                 "c11" => c11::replay(case),
+                "derived" => c11::replay(case),
                 "c12" => c12::replay(case),
                 "c20" => c20::replay(case),
                 "c18" => c18::replay(case),
